@@ -2,6 +2,7 @@ package lint
 
 import (
 	"fmt"
+	"sort"
 	"strings"
 
 	"golang.org/x/tools/go/ssa"
@@ -370,9 +371,148 @@ func runC17(c *Ctx) {
 	// ---------- R17.11 failure atomicity
 	c.Rule("R17.11", "E8", "dependency database and runtime registration: no method writes its tables and can still fail afterwards (a rejected registration leaves no trace); listed: Run's start-up, which cancels its context again when the watches cannot be set up, and watch()'s not-yet-started marker", 3)
 	c.FailureAtomicity("R17.11", []string{pkgDep, pkgRuntime}, map[string]string{
-		"(*pkg/controller/runtime.Runtime).Run$*": "runCtx is set before setupWatches; on failure the context is cancelled and Run returns the error: the runtime is not usable afterwards by design",
-		"(*pkg/controller/runtime.Runtime).watch": "the key is recorded as not-yet-watched (false) before the watch is started; a failed start is reported and the runtime stops",
+		"Runtime.runCtx":       "set before setupWatches; on failure the context is cancelled and Run returns the error: the runtime is not usable afterwards by design",
+		"Runtime.runCtxCancel": "see runCtx",
+		"Runtime.watched":      "the key is recorded as not-yet-watched (false) before the watch is started; a failed start is reported and the runtime stops",
 	}, pkgRRuntime, 4)
+
+	// ---------- R17.12 conflicting inputs are neighbours in the sort order
+	c.Rule("R17.12", "E4", "Input.Compare orders by the fields EqualKeys compares (namespace, type, id) before anything else, so inputs with conflicting keys are adjacent in a sorted list — the duplicate test of AddControllerInput (binary search ±1) and the merge in UpdateInputs rely on it", 1)
+
+	if cmpF, eqF := p.Method("pkg/controller", "Input", "Compare"), p.Method("pkg/controller", "Input", "EqualKeys"); c.NeedFunc("R17.12", cmpF, "Input.Compare") && c.NeedFunc("R17.12", eqF, "Input.EqualKeys") {
+		fieldsIn := func(v ssa.Value) string {
+			// the Input field a compared value is read from
+			seen := map[ssa.Value]bool{}
+
+			var walk func(v ssa.Value, d int) string
+
+			walk = func(v ssa.Value, d int) string {
+				if v == nil || seen[v] || d > 6 {
+					return ""
+				}
+
+				seen[v] = true
+
+				switch x := v.(type) {
+				case *ssa.FieldAddr:
+					if sn, fn := FieldOf(x.X, x.Field); sn == "Input" {
+						return fn
+					}
+				case *ssa.Field:
+					if sn, fn := FieldOf(x.X, x.Field); sn == "Input" {
+						return fn
+					}
+				case *ssa.UnOp:
+					return walk(x.X, d+1)
+				case *ssa.Call:
+					for _, a := range x.Call.Args {
+						if r := walk(a, d+1); r != "" {
+							return r
+						}
+					}
+				case *ssa.MakeInterface:
+					return walk(x.X, d+1)
+				case *ssa.ChangeType:
+					return walk(x.X, d+1)
+				case *ssa.Convert:
+					return walk(x.X, d+1)
+				}
+
+				return ""
+			}
+
+			return walk(v, 0)
+		}
+
+		keys := map[string]bool{}
+
+		for _, in := range Find(eqF, func(in ssa.Instruction) bool { _, ok := in.(*ssa.FieldAddr); return ok }) {
+			if sn, fn := FieldOf(in.(*ssa.FieldAddr).X, in.(*ssa.FieldAddr).Field); sn == "Input" {
+				keys[fn] = true
+			}
+		}
+
+		cmpCalls := p.Calls(cmpF, "cmp.Compare")
+
+		switch {
+		case len(keys) < 3 || len(cmpCalls) < 2:
+			c.Unknown("R17.12", FuncName(cmpF)+" :: key fields first", fpos(cmpF), fmt.Sprintf("anchor-unresolved: %d key fields in EqualKeys, %d cmp.Compare calls in Compare", len(keys), len(cmpCalls)))
+		case len(p.Calls(cmpF, "cmp.Or")) > 0:
+			// lexicographic list: key fields must come before the others
+			ok, detail := true, ""
+
+			for _, or := range p.Calls(cmpF, "cmp.Or") {
+				elems, _ := VarargElems(CallArgs(or)[0])
+
+				// VarargElems does not promise an order: take the element index from the address
+				type at struct {
+					idx   int64
+					field string
+				}
+
+				var seq []at
+
+				if sl, isSl := Fwd(CallArgs(or)[0]).(*ssa.Slice); isSl {
+					if al, isAl := sl.X.(*ssa.Alloc); isAl && al.Referrers() != nil {
+						for _, r := range *al.Referrers() {
+							ia, isIA := r.(*ssa.IndexAddr)
+							if !isIA || ia.Referrers() == nil {
+								continue
+							}
+
+							k, isConst := ia.Index.(*ssa.Const)
+							if !isConst {
+								continue
+							}
+
+							for _, rr := range *ia.Referrers() {
+								if st, isSt := rr.(*ssa.Store); isSt && st.Addr == ssa.Value(ia) {
+									seq = append(seq, at{k.Int64(), fieldsIn(st.Val)})
+								}
+							}
+						}
+					}
+				}
+
+				sort.Slice(seq, func(i, j int) bool { return seq[i].idx < seq[j].idx })
+
+				if len(seq) != len(elems) || len(seq) < len(keys) {
+					ok, detail = false, "the compared list could not be read"
+				}
+
+				for i, e := range seq {
+					if i < len(keys) && !keys[e.field] {
+						ok, detail = false, fmt.Sprintf("position %d compares %q before all key fields were compared", i, e.field)
+					}
+				}
+			}
+
+			c.Check(ok, "R17.12", FuncName(cmpF)+" :: key fields first", fpos(cmpF), "lexicographic list starts with the EqualKeys fields", detail)
+		default:
+			// decision chain: a non-key field decides only behind the equal edges of all key fields
+			n := 0
+
+			for _, call := range cmpCalls {
+				fld := fieldsIn(CallArgs(call)[0])
+				if keys[fld] || fld == "" {
+					continue
+				}
+
+				n++
+
+				this := call
+
+				for k := range keys {
+					c.MustCut("R17.12", "Compare decides on "+fld+" ⊣ {"+k+" equal}", cmpF, func(in ssa.Instruction) bool { return in == ssa.Instruction(this.(*ssa.Call)) },
+						CutSpec{Edges: FactEdge("eq(*Input*." + k + ",*Input*." + k + ")")}, 1)
+				}
+			}
+
+			if n == 0 {
+				c.Unknown("R17.12", FuncName(cmpF)+" :: key fields first", fpos(cmpF), "anchor-unresolved: no comparison of a non-key field found")
+			}
+		}
+	}
 
 }
 
